@@ -96,7 +96,7 @@ def run(tier, seed):
     rng = C.rng_for(seed, CID)
     n = 20000 if tier == 'quick' else 600000
 
-    P = R.proof_stage()
+    P = PS.proof_stage(R)
     proof_broken = not P['ok']
 
     sides = PS.Sides()
